@@ -52,6 +52,15 @@ CLAIMED = {
              "are replayed on the code.",
         note=CONC_NOTE, design="7/C06",
         technique="TLA+ spec + TLC model checking; schedule enumeration on the code with TLC trace validation; replay"),
+    "C11": dict(
+        text="Wait.tla models WaitRange (registration, SubEqual of the already-ready futures, timed and untimed event wait, "
+             "relaxed Reset per future, SubEqual(reset_count), final wait) and the producers' side at yaclib_std-operation "
+             "granularity with a virtual deadline that may pass at any point, followed by a second consumer operation per "
+             "future; TLC checks it exhaustively for n <= 2; every schedule with at most two preemptions (n <= 2) and random "
+             "schedules (n = 3) of the real code, with the controller firing the fiber clock, are validated against it; the "
+             "harness flags any operation of a producer on the waiter's dead stack frame.",
+        note=CONC_NOTE, design="7/C11",
+        technique="TLA+ spec + TLC model checking; schedule enumeration on the code with TLC trace validation"),
     "C12": dict(
         text="Pipeline.tla in lazy mode: TLC enumerates lazy programs x six ways of starting/abandoning, checks on the "
              "interpreter that a started Task equals its eager twin and that cancellation runs no value callback, and every "
